@@ -218,6 +218,11 @@ func (g *G) Pattern(elem any, d int) any {
 		if g.P(0.1) {
 			pat = append(pat, g.Scalar())
 		}
+		if len(pat) > 0 && g.P(0.2) {
+			// list patterns are not one-to-one: repeat an entry (the pattern may
+			// then be longer than the list it matches)
+			pat = append(pat, Clone(pat[g.N(len(pat))]))
+		}
 		return pat
 	default:
 		if g.P(0.8) {
